@@ -48,8 +48,23 @@ def late_pins():
         mod([('S', seq(M('a', Ty('BOOLEAN')), ext=adds))]), 'S', {'a': True, 'm64': True}, codec='per')
 
 
+def pins_session3():
+    pin('C05', 'per-aligned-small-string-alignment',
+        mod([('A', Ty('NumericString', size=Rng(1, 3)))]), 'A', '12', codec='per')
+
+
+def pins_session3b():
+    # extensible permitted alphabet: a character outside the root is admitted, and '.' is not part of it
+    pin('C11', 'from-extension-marker',
+        mod([('A', Ty('IA5String', alpha=Alpha([('a', 'f')], ext=True)))]), 'A', 'ax', codec='ber')
+    pin('C05', 'from-extension-marker',
+        mod([('A', Ty('IA5String', alpha=Alpha([('a', 'f')], ext=True)))]), 'A', 'ab', codec='uper')
+
+
 def main():
     late_pins()
+    pins_session3b()
+    pins_session3()
     tz1 = datetime.timezone(datetime.timedelta(hours=1))
     pin('C01', 'oid-arc2', mod([('A', Ty('OBJECT IDENTIFIER'))]), 'A', '2.48', codec='ber')
     pin('C01', 'group-default-bits',
